@@ -110,7 +110,7 @@ def run(ctx):
     else:
         write_mc_cfg(os.path.join(d, cfg), 3, 3, 5)
     r = lib.tlc(ctx, d, "MC_Wallet", cfg, workers=8, timeout=3400)
-    lib.require_coverage(r, ["EnvBlock", "WTip", "WScan", "WTrunc"])
+    lib.require_coverage(r, ["EnvBlock", "WTip", "WScan", "WTrunc", "WCreate"])
     lib.account_tlc(ctx, r)
 
     # (2) recorded executions of the real wallet, validated by TLC
@@ -139,6 +139,13 @@ def run(ctx):
                 totals[k] = max(totals.get(k, 0), v) if k in ("max_height", "links_seen") else totals.get(k, 0) + v
             if not validate(ctx, d, path, name):
                 break
+    # (3) transparent coins (Coins.tla; wallet crates with transparent-inputs): the coin ledger, reported UTXOs, fully
+    # stored transactions, conflicting spenders, rewinds -- interleaved with the shielded operations on the same wallet
+    coin_stats = None
+    if not ctx.violations:
+        from . import c01_coins
+        coin_stats = c01_coins.run_part(ctx)
+        ctx.extra["coin_stats"] = coin_stats
     if totals.get("balance_checked", 0) < 50 or totals.get("fresh", 0) < 3 or totals.get("trunc_ok", 0) < 3:
         raise lib.ToolError("vacuity: the driver produced too few checked states: %s" % totals)
     ctx.extra["trace_stats"] = totals
@@ -151,7 +158,9 @@ def run(ctx):
              "compared with the specification's ledger",
         evaluations=totals.get("events", 0), distinct_nontrivial=totals.get("balance_checked", 0),
         assumptions=["harness-fabricated compact blocks are well-formed (real note encryption via the crates' TestFvk helpers)",
-                     "one account; the client follows the documented protocol (update_chain_tip before scanning above the tip; "
+                     "two accounts; transparent coins are driven on the wallet crates built with transparent-inputs "
+                     "(Coins.tla: reported UTXOs, fully stored transactions incl. conflicting spenders, set_transaction_status, "
+                     "rewinds), interleaved with the shielded operations; the client follows the documented protocol (update_chain_tip before scanning above the tip; "
                      "the wallet is rewound before the chain is replaced)",
                      "a scan refused with a commitment-tree Conflict after a rewind below an inserted frontier is the "
                      "C06 known finding (ledger unchanged), classified by the spec's taint variable",
@@ -163,6 +172,9 @@ def replay(ctx, path):
     d = lib.stage_specs(ctx, AREA)
     with open(path) as f:
         rep = json.load(f)
+    from . import c01_coins
+    if rep.get("kind") == c01_coins.KIND:
+        return c01_coins.replay_part(ctx, rep)
     tp = ctx.path("replay_trace.ndjson")
     with open(tp, "w") as f:
         for e in rep["history"]:
@@ -197,3 +209,5 @@ def selftest(ctx):
     if acc:
         raise lib.ToolError("selftest: dropped scan event not noticed")
     lib.log("selftest ok: corrupted balance rejected at its event; dropped event rejected at %d" % n)
+    from . import c01_coins
+    c01_coins.selftest_part(ctx)
